@@ -64,6 +64,14 @@ Fixpoint run_count {S Op} (adm : Op -> Z -> Z) (step : S -> Op -> S * Z) (s : S)
               let '(s2, n) := run_count adm step s1 r in (s2, adm o x + n)
   end.
 
+(** Times of the granted acquires of a run, oldest first. *)
+Fixpoint run_times {S} (step : S -> pop -> S * Z) (s : S) (ops : list pop) : list Z :=
+  match ops with
+  | [] => []
+  | o :: r => let '(s1, x) := step s o in
+              (if granted o x =? 1 then [time_of o] else []) ++ run_times step s1 r
+  end.
+
 Section Generic.
   Variable O : numops.
   Notation N := (num O).
